@@ -30,7 +30,7 @@ type c15Case struct {
 	Env   string `json:"env"`
 }
 
-var c15Alpha = []rune("a*?[]\\'\"$`~ \n#=é/.\r\t")
+var c15Alpha = []rune("a*?[]\\'\"$`~ \n#=é/.\r\t:")
 
 func c15Quote(s, style string) (string, bool) {
 	var b strings.Builder
@@ -340,7 +340,7 @@ func init() {
 	register(&check{
 		id:    "C15",
 		level: "model_checking",
-		rule: "every string ≤ 4 (quick) / 5 (thorough) over {a * ? [ ] \\ ' \" $ ` ~ space newline # = é / .} × {single, double, backslash-each, mixed} quoting × 6 ExpModes × 4 environments " +
+		rule: "every string ≤ 4 (quick) / 5 (thorough) over {a * ? [ ] \\ ' \" $ ` ~ space newline # = é / . :} × {single, double, backslash-each, mixed} quoting × 6 ExpModes × 4 environments " +
 			"(IFS made of the alphabet, HOME set, positional parameters set, working directory with files named like the strings); the strings ≤ 3 also as the quoted word of ${u:-…}, ${u-…} (u unset) and ${a:+…} (a set) outside double quotes; non-trivial = the string contains a character that is special to some expansion",
 		assume: []string{"backslash-newline is excluded from the backslash style (POSIX removes it, it is not a quoted newline)", "Pattern mode is judged with the pattern model of C12"},
 		run:    c15Run,
